@@ -9,8 +9,11 @@
 (* a sequence of *faults* to the bytes:                                    *)
 (*    Overwrite(field, value class)   the field gets the value the class   *)
 (*                                    names (0, 1, max, max-1, 0x7F..,     *)
-(*                                    0x80.., old+1, old-1, old*2, file    *)
-(*                                    length, table length; for offset and *)
+(*                                    0x80.., old+1, old-1, old*2, old/2,  *)
+(*                                    file length, table length; for a     *)
+(*                                    size / count field that other fields *)
+(*                                    imply, one less than and half of the *)
+(*                                    implied value; for offset and        *)
 (*                                    index fields also the reference to   *)
 (*                                    the structure that contains the      *)
 (*                                    field and to that structure's parent)*)
@@ -41,7 +44,7 @@ S == INSTANCE Sfnt
 
 Roles        == {"count", "offset", "length", "version", "index", "value"}
 \* byte-level classes: the new value is a function of the old bytes, the file and the table length
-ByteClasses  == {"zero", "one", "max", "max-1", "hi7f", "hi80", "inc", "dec", "dbl", "filelen", "tablelen"}
+ByteClasses  == {"zero", "one", "max", "max-1", "hi7f", "hi80", "inc", "dec", "dbl", "half", "filelen", "tablelen"}
 \* reference classes: the field is made to refer to the structure that contains it ("self": an
 \* offset gets the offset of its own structure, a glyph / subroutine / lookup index or a character
 \* code gets the number of the object it sits in) or to the structure that refers to that one
@@ -61,10 +64,22 @@ RefClasses   == {"self", "parent"}
 PrevClasses  == {"eqprev", "prev+1", "prev-1", "uwrap-prev", "swrap-prev"}
 NextClasses  == {"eqnext", "next-1", "next+1", "uwrap-next", "swrap-next"}
 RelClasses   == PrevClasses \cup NextClasses
-ValueClasses == ByteClasses \cup RefClasses \cup RelClasses
+\* derived classes: the field is a size, length or count that OTHER fields of the font imply (the imageSize of a
+\* constant-metrics bitmap strike = height x bytes per row of the metrics beside it, a data length = the bytes
+\* the enclosing record has left, a sub-table length = header + count x record size, a glyph count = what the
+\* offset array holds ...).  The classes make the field disagree with what the others imply by the smallest
+\* amount ("der-1": one less than implied - the consumer that trusts the metrics reads one byte past the
+\* data) and grossly ("der-half").  "zero" is a byte class.  No function of the old bytes produces them when the
+\* font's own value differs from the implied one (padding, slack); the implied value is a fact of the structural
+\* walk, computed WITHOUT reading the field itself, carried by the field as dv (-1 = the walk knows none).
+DerClasses   == {"der-1", "der-half"}
+ValueClasses == ByteClasses \cup RefClasses \cup RelClasses \cup DerClasses
 RefRoles     == {"offset", "index"}
 RelRoles     == {"count", "offset", "length", "index", "value"}
+\* an offset has an implied value when it ends a record whose own content says how long it is (start + implied size)
+DerRoles     == {"count", "length", "offset"}
 ClassApplies(vc, role) == (vc \in RefClasses => role \in RefRoles) /\ (vc \in RelClasses => role \in RelRoles)
+                          /\ (vc \in DerClasses => role \in DerRoles)
 Levels       == {"dir", "table"}
 FaultKinds   == {"Overwrite", "Truncate", "RemoveTable", "ShrinkLength", "SwapTables"}
 TruncWhere   == {"at", "inside"}
@@ -110,8 +125,9 @@ Hi80(w) == [k \in 1 .. w |-> IF k = 1 THEN 128 ELSE 0]
 
 \* the value a class names for a field that held `old` (Len(old) = width); sv / pv: the references
 \* of the field (numbers below 2^31; the low-order bytes are written, as a reader of the field sees them);
-\* pb / nb: the bytes of the previous / next element of the array the field belongs to (same width; <<>> = none)
-NewValue(vc, old, flen, tlen, sv, pv, pb, nb) ==
+\* pb / nb: the bytes of the previous / next element of the array the field belongs to (same width; <<>> = none);
+\* dv: the value the other fields imply for this one (a number below 2^31)
+NewValue(vc, old, flen, tlen, sv, pv, dv, pb, nb) ==
   LET w == Len(old) IN
   CASE vc = "zero"     -> Zeros(w)
     [] vc = "one"      -> BytesOf(1, w)
@@ -122,10 +138,13 @@ NewValue(vc, old, flen, tlen, sv, pv, pb, nb) ==
     [] vc = "inc"      -> Inc(old)
     [] vc = "dec"      -> Dec(old)
     [] vc = "dbl"      -> Dbl(old)
+    [] vc = "half"     -> Half(old)
     [] vc = "filelen"  -> BytesOf(flen, w)
     [] vc = "tablelen" -> BytesOf(tlen, w)
     [] vc = "self"     -> BytesOf(sv, w)
     [] vc = "parent"   -> BytesOf(pv, w)
+    [] vc = "der-1"    -> BytesOf(dv - 1, w)
+    [] vc = "der-half" -> BytesOf(dv \div 2, w)
     [] vc = "eqprev"   -> pb
     [] vc = "eqnext"   -> nb
     [] vc = "prev+1"   -> Inc(pb)
@@ -139,12 +158,14 @@ NewValue(vc, old, flen, tlen, sv, pv, pb, nb) ==
 
 \* a reference class applies to a field that has the reference
 HasRef(vc, sv, pv) == (vc = "self" => sv >= 0) /\ (vc = "parent" => pv >= 0)
+\* a derived class applies to a field for which the walk knows an implied value of at least 1
+HasDer(vc, dv) == vc \in DerClasses => dv >= 1
 \* a relational class applies to a field whose sibling is there (w = width of the field)
 HasRel(vc, w, pb, nb) == (vc \in PrevClasses => Len(pb) = w) /\ (vc \in NextClasses => Len(nb) = w)
 
 ---------------------------------------------------------------------------
 \* Faults on byte strings.  Positions are 0-based.
-\*   [k |-> "Overwrite", off, w, vc, tlen, sv, pv, po, no]   po / no: position of the previous / next element, -1 = none
+\*   [k |-> "Overwrite", off, w, vc, tlen, sv, pv, dv, po, no]   po / no: position of the previous / next element, -1 = none
 \*   [k |-> "Truncate", at]
 \*   [k |-> "RemoveTable", rec, size, cnt, idx, n]   record at rec (size bytes, index idx of n), count at cnt (u16)
 \*   [k |-> "ShrinkLength", off, mode]               u32 length field at off
@@ -159,12 +180,13 @@ InFile(bs, p, w)  == p >= 0 /\ p + w <= Len(bs)
 Sibling(bs, p, w) == IF p >= 0 /\ InFile(bs, p, w) THEN Window(bs, p, w) ELSE <<>>
 
 \* a fault whose target no longer lies inside the (already truncated) file does nothing; neither does
-\* a reference class on a field without that reference, nor a relational class on a field without that sibling
+\* a reference class on a field without that reference, a derived class on a field without an implied value, nor a
+\* relational class on a field without that sibling
 Apply(bs, f) ==
   CASE f.k = "Overwrite" ->
          LET pb == Sibling(bs, f.po, f.w)  nb == Sibling(bs, f.no, f.w) IN
-         IF InFile(bs, f.off, f.w) /\ HasRef(f.vc, f.sv, f.pv) /\ HasRel(f.vc, f.w, pb, nb)
-         THEN Patch(bs, f.off, NewValue(f.vc, Window(bs, f.off, f.w), Len(bs), f.tlen, f.sv, f.pv, pb, nb)) ELSE bs
+         IF InFile(bs, f.off, f.w) /\ HasRef(f.vc, f.sv, f.pv) /\ HasDer(f.vc, f.dv) /\ HasRel(f.vc, f.w, pb, nb)
+         THEN Patch(bs, f.off, NewValue(f.vc, Window(bs, f.off, f.w), Len(bs), f.tlen, f.sv, f.pv, f.dv, pb, nb)) ELSE bs
     [] f.k = "Truncate" -> SubSeq(bs, 1, IF f.at < Len(bs) THEN f.at ELSE Len(bs))
     [] f.k = "RemoveTable" ->
          LET last == f.rec + (f.n - f.idx) * f.size IN      \* end of the directory
